@@ -935,5 +935,41 @@ package tally
 //@   ensures @new_scope_shape created != nil ==> created == result && created.prefix == prefix && created.separator == parent.separator && same(created.reporter, parent.reporter) && same(created.cachedReporter, parent.cachedReporter) && same(created.baseReporter, parent.baseReporter) && same(created.defaultBuckets, parent.defaultBuckets) && same(created.sanitizer, parent.sanitizer) && created.registry == parent.registry && created.bucketCache == parent.bucketCache && created.testScope == parent.testScope && !created.root && !created.closed
 //@   ensures @new_scope_tags_overlay_parent_tags created != nil && len(stags) > 0 && len(parent.tags) > 0 ==> (forall k string :: (k in created.tags) <==> (k in parent.tags || k in stags)) && (forall k string :: k in stags ==> created.tags[k] == stags[k]) && (forall k string :: k in parent.tags && !(k in stags) ==> created.tags[k] == parent.tags[k])
 //@   ensures @new_scope_tags_no_new_tags created != nil && len(stags) == 0 ==> created.tags == parent.tags
+//@   ensures @added_tags_are_the_sanitized_argument created != nil ==> (forall k2 string :: k2 in stags ==> (exists k string :: k in tags && k2 == pcall(Sanitizer.Key, parent.sanitizer, k) && stags[k2] == pcall(Sanitizer.Value, parent.sanitizer, tags[k]))) && (forall k string :: k in tags ==> pcall(Sanitizer.Key, parent.sanitizer, k) in stags)
 //@   ensures @new_scope_tags_no_parent_tags created != nil && len(stags) > 0 && len(parent.tags) == 0 ==> created.tags == stags
 //@   ensures @new_scope_is_well_formed created != nil ==> scopeWF(created) && fresh(created)
+
+//@ func (*scope).subscope
+//@   property C04
+//@   emits
+//@   allocs
+//@   inline
+
+//@ func (*scope).Tagged
+//@   property C04, C05
+//@   emits
+//@   allocs
+//@   witness created *scope = callee (*scopeRegistry).Subscope.created
+//@   witness stags map[string]string = callee (*scopeRegistry).Subscope.stags
+//@   requires scopeWF(s) && s.registry != nil && registryWF(s.registry) && len(s.registry.subscopes) >= 1
+//@   requires NoopScope != nil && is(NoopScope, *scope) && dyn(NoopScope, *scope) != nil
+//@   assume @existing_scopes_share_the_parents_reporters forall x *scope :: same(x.cachedReporter, s.cachedReporter) && same(x.reporter, s.reporter)
+//@   modifies *
+//@   ensures @a_scope result != nil && is(result, *scope) && dyn(result, *scope) != nil
+//@   ensures @new_scope_keeps_the_prefix created != nil ==> created == dyn(result, *scope) && created.prefix == s.prefix && created.separator == s.separator
+//@   ensures @new_scope_tags_overlay created != nil && len(stags) > 0 && len(s.tags) > 0 ==> (forall k string :: (k in created.tags) <==> (k in s.tags || k in stags)) && (forall k string :: k in stags ==> created.tags[k] == stags[k]) && (forall k string :: k in s.tags && !(k in stags) ==> created.tags[k] == s.tags[k])
+//@   ensures @inert_when_closed old(s.closed) || old(s.registry.root.closed) ==> dyn(result, *scope) == dyn(NoopScope, *scope)
+
+//@ func (*scope).SubScope
+//@   property C04, C05, C06
+//@   emits
+//@   allocs
+//@   witness created *scope = callee (*scopeRegistry).Subscope.created
+//@   requires scopeWF(s) && s.registry != nil && registryWF(s.registry) && len(s.registry.subscopes) >= 1
+//@   requires NoopScope != nil && is(NoopScope, *scope) && dyn(NoopScope, *scope) != nil
+//@   assume @existing_scopes_share_the_parents_reporters forall x *scope :: same(x.cachedReporter, s.cachedReporter) && same(x.reporter, s.reporter)
+//@   modifies *
+//@   ensures @a_scope result != nil && is(result, *scope) && dyn(result, *scope) != nil
+//@   ensures @new_scope_prefix_is_the_qualified_sanitized_name created != nil ==> created == dyn(result, *scope) && created.prefix == fqn(s, sanN(s, prefix)) && created.separator == s.separator
+//@   ensures @new_scope_keeps_the_tags created != nil ==> created.tags == s.tags
+//@   ensures @inert_when_closed old(s.closed) || old(s.registry.root.closed) ==> dyn(result, *scope) == dyn(NoopScope, *scope)
